@@ -138,7 +138,8 @@ class Triggs(nn.Module):
         x = R.square().sum(-1, keepdim=True).requires_grad_(True)
         y = self.kernel(x).sum()
         g1 = grad(y, x, create_graph=True)[0]
-        g2 = grad(g1.sum(), x)[0]
+        # an affine kernel has a constant first derivative, detached from the graph
+        g2 = grad(g1.sum(), x)[0] if g1.requires_grad else torch.zeros_like(g1)
         return x.detach_(), g1.detach_(), g2.detach_()
 
     def forward(self, R: Tensor, J: Tensor):
